@@ -393,3 +393,5 @@ M("C13", "magic-check-inverted", NODES, 'if ips_file.read(5) != b"PATCH":', 'if 
 M("C13", "delta-guard-inverted", NODES, "                if self.delta is not None:\n                    block_addr += self.delta", "                if self.delta is None:\n                    block_addr += self.delta", "C13.R3")
 M("C17", "empty-lines-not-counted", "a816/parse/scanner.py", "if self.line_offset <= self.pos:", "if self.line_offset < self.pos:", "C17.R3")
 M("C03", "pending-block-never-initialised", PROG, "        current_block = b\"\"\n        current_block_addr = self.resolver.pc\n        for node in program:", "        current_block_addr = self.resolver.pc\n        for node in program:", "C03.RU")
+M("C12", "mapping-applied-when-absent", PROG, "        if mapping is not None:\n", "        if mapping is None:\n", "C12.R2")
+M("C13", "record-loop-guard-inverted", NODES, '(record_header := ips_file.read(3)) != b"EOF"', '(record_header := ips_file.read(3)) == b"EOF"', "C13.R2")
